@@ -1189,8 +1189,15 @@ impl Model {
         }
         if !hits.is_empty() && !shared.is_empty() {
             // a plain and a shared subscription could both explain this forward
-            let plain_qos_match = self.sessions[&client].subs[hits[0]].qos == p.qos;
-            let shared_qos_match = shared.iter().any(|i| self.sessions[&client].subs[*i].qos == p.qos);
+            // (a subscription repeated with another QoS may still forward with its first one: it "matches" any QoS)
+            let plain_qos_match = {
+                let s = &self.sessions[&client].subs[hits[0]];
+                s.qos == p.qos || s.resubscribed_qos_changed
+            };
+            let shared_qos_match = shared.iter().any(|i| {
+                let s = &self.sessions[&client].subs[*i];
+                s.qos == p.qos || s.resubscribed_qos_changed
+            });
             // (subscription identifiers have already narrowed the candidates: whatever is left shares them)
             if plain_qos_match == shared_qos_match {
                 self.conns[conn].ambiguous = true;
@@ -1231,12 +1238,26 @@ impl Model {
             // a subscription that is still open explains the forward before one that has ended
             let open: Vec<usize> = shared.iter().copied().filter(|i| self.sessions[&client].subs[*i].closed_at.is_none()).collect();
             let pool = if open.is_empty() { shared.clone() } else { open };
+            // which of this client's group memberships explains the forward: the granted QoS comes first (a membership
+            // that was repeated with another QoS may keep forwarding with the first one and so fits any), then a group
+            // that has not handed this message to anybody yet (every group delivers it once)
             let pick = pool
                 .iter()
                 .copied()
-                .find(|i| self.sessions[&client].subs[*i].qos == p.qos)
-                // (no member subscription was granted this QoS: one that was repeated with another QoS explains it first)
-                .or_else(|| pool.iter().copied().find(|i| self.sessions[&client].subs[*i].resubscribed_qos_changed))
+                .min_by_key(|i| {
+                    let s = &self.sessions[&client].subs[*i];
+                    let already = match (midx, &s.group) {
+                        // (clears of retained messages carry no identity)
+                        _ if payload.is_empty() => false,
+                        (Some(mi), Some(g)) => self
+                            .groups
+                            .get(&(g.clone(), s.filter.clone()))
+                            .map(|gr| gr.delivered.contains_key(&mi) && !gr.redeliverable.contains(&mi))
+                            .unwrap_or(false),
+                        _ => false,
+                    };
+                    (s.qos != p.qos && !s.resubscribed_qos_changed, already, s.qos != p.qos)
+                })
                 .unwrap_or(pool[0]);
             let (gname, filter, path, closed_at, last, sub_qos, requal) = {
                 let s = &self.sessions[&client].subs[pick];
